@@ -356,6 +356,9 @@ func vSharesStorage(a, b *Line) bool {
 // "unguarded". vLockAcquires counts Lock/RLock calls on mu.
 func vWatch(root interface{}, mu interface{}) {}
 func vWatchOn(on bool)                       {}
+
+// vPermuteIn: the executor explores every iteration order of map ranges inside the named function.
+func vPermuteIn(fn string) {}
 func vLockAcquires(mu interface{}) int {
 	if c, ok := mu.(interface{ vAcquires() int }); ok {
 		return c.vAcquires()
